@@ -383,6 +383,9 @@ func (m *Machine) Next(choice int) Outcome {
 				return m.fail(err, s)
 			}
 			m.Vars[s.Var] = nv
+			if nv.T == hast.TStr && len(nv.S) > MaxString {
+				m.env.Steps += 3000000 // see MaxString
+			}
 		case hast.SJump:
 			target := s.Target
 			if s.X != nil {
